@@ -2,13 +2,16 @@ from props import TB_COMMON
 
 HDRVM = "From TeraV Require Import Model.Value Model.Instr Model.VM Corr.CorrVM."
 HDRST = "From TeraV Require Import Model.Value Model.Instr Model.VM Spec.Stmt Corr.CorrC03."
+HDRVM1 = "From TeraV Require Import Model.Value Model.Instr Model.VM Corr.CorrVM1."
 CFG = {
     "bin": "c03",
-    "corr": ["CorrVM", "CorrC03"],
+    "corr": ["CorrVM", "CorrC03", "CorrVM1"],
+    "extra_bins": ["vm1"],
     "families": {
         "vm": {"header": HDRVM, "model_fn": "model_vm", "rule": "F"},
         "compile": {"header": HDRST, "model_fn": "model_compile", "rule": "F"},
         "ref": {"header": HDRST, "model_fn": "model_ref", "rule": "F"},
+        "vm1": {"header": HDRVM1, "model_fn": "model_vm1", "rule": "F"},
     },
     "rule_text": "vm: one case per (finalized template or template set, entry template, optional block, context): the REAL chunks and block "
                  "lineage (hook tera::verif::template_listing) are run on Model/VM.v and the output text / error class compared with "
@@ -28,12 +31,33 @@ CFG = {
                  "single-entry and empty maps, empty arrays (else bodies), loop.*; every 4th library (and 10/60 template sets of the vm family) is an "
                  "include CHAIN of depth 2-4 whose inner templates read loop variables, per-iteration sets (loop.index copies), set and set_global "
                  "variables of includers at EVERY distance, with shadowing at intermediate levels and includes inside filter sections / set blocks "
-                 "(vm sets also read __tera_loop_index of the includers directly); non-trivial = renders > 3 characters from >= 5 statements.",
+                 "(vm sets also read __tera_loop_index of the includers directly); non-trivial = renders > 3 characters from >= 5 statements. "
+                 "vm1: like vm, in the FULL world Model/World1.v (arithmetic and negation = Model/Number.v; ==, <, in, key lookup, get_attr = "
+                 "Model/Order.v; all 36 built-in filters, 17 tests, range/throw = Model/Builtins.v + Model/CollFilters.v; build_context = "
+                 "Model/Component.v; Value::format = Model/Format.v with `{:?}` of f64 computed by Model/FloatFmt.v). One case per (template set + "
+                 "REAL component table (hooks component_listings, get_component_definition), entry, optional block, context, global context). "
+                 "Sources: (a) the engine's snapshot corpus rendering_inputs/{success,errors}/**/*.txt under the context of snapshot_tests/rendering.rs "
+                 "(ported statement by statement; templates calling the test's custom filter `read_ctx` are skipped and counted, and re-run with those "
+                 "lines removed); (b) 90 hand-written programs covering every operator, filter (with kwargs), test, function, component feature, each "
+                 "under 6 contexts (ints of every width incl. i128::MAX/u128::MAX, floats incl. NaN, infinities, -0.0, subnormal, 1e16/1e-5 "
+                 "boundaries of the scientific notation, strings with specials/unicode, rows, maps, bytes), .html and .txt; (c) a TYPED grammar generator "
+                 "(expressions of static type int/float/str/bool/array/map: + - * / // % ** unary minus, all six comparisons between numbers, strings, "
+                 "arrays, mixed; in / not in; string and collection filters with kwargs; tests with arguments; range; ternaries; slices; comprehensions; "
+                 "spreads; statements: if/elif/else, for/else over ranges, arrays, rows, strings, maps, break/continue, set/set_global/set blocks, "
+                 "filter sections, includes, inheritance with super(), component calls inline and with bodies, nested and recursive); (d) the "
+                 "World0-subset generators under contexts with floats. Cells no model covers (f64::powf, str::parse::<f64>, non-ASCII case mapping, "
+                 "`{:?}` of unusual characters, ill-formed bytes) are excluded statically and counted (extra.vm1_skipped_outside_world1); the model "
+                 "answers them with a class the engine cannot produce, so a leak is a loud mismatch. Non-trivial = renders to more than 2 bytes from "
+                 ">= 6 instructions.",
     "trusted_base": TB_COMMON + [
         "axioms: none",
         "Model/VM.v is a hand port of interpret(); Model/World0.v models only default/upper(ASCII)/safe/length, defined/undefined, "
         "==, <, in on ints/strings/bools/containers, no arithmetic, no components: the correspondence is restricted to that subset",
         "HashMap iteration order: the harness prints maps in their real iteration order, the model iterates in list order",
+        "vm1: Model/World1.v is glue (name dispatch, kwargs-map -> list, comp_def conversion, attribute-path splitting) over the per-property "
+        "models; Model/FloatFmt.v MODELS `{:?}` of f64 by its contract (shortest round-trip digits, closest, scientific outside [1e-4, 1e16)) "
+        "and is validated only by this correspondence; the generator's type discipline keeps generated programs off the unmodelled cells, and "
+        "iteration over maps built at run time (HashMap order unknown to the model) is only generated behind sort/length or on single-entry maps",
         "compile_correct hypotheses: non-failing appending writer (C18 owns failing writers); kwargs keys are strings; filters do not read "
         "the VM state; trees are what the parser accepts (Compile.wf_stmt: break/continue in a loop and not across a capture, loop.* inside "
         "a for, user variables not named __tera_context/__tera_loop_*); includes point forward in the library list (acyclic, C11)",
@@ -43,19 +67,23 @@ CFG = {
     "modelled": ["parsing/compiler.rs compile_node/compile_expr/compile_kwargs for the statement language of Spec/Stmt.v (Model/Compile.v)",
                  "vm/interpreter.rs interpret (all 56 instructions), render_include, render_component (shape), render_to",
                  "vm/state.rs get_value, store_local/global, dump_context; vm/for_loop.rs ForLoop, iterators, loop.*"],
-    "assumptions": ["fuel 6000 steps per render in the model (vm family), 20000 (ref family, compiled library on the VM)", "floats and bytes are not generated"],
+    "assumptions": ["fuel 6000 steps per render in the model (vm family), 20000 (ref family, compiled library on the VM), 30000 (vm1)",
+                    "floats and bytes are not generated in the vm/compile/ref families (they are in vm1)"],
     "harness_timeout": 1500,
 }
 
 MANIFEST = (
-    "Rocq proof: compiler port + VM port refine a documentation-level reference interpreter (compile_correct, all statement trees); three correspondences (VM on real chunks, compiler listings, reference vs engine)",
+    "Rocq proof: compiler port + VM port refine a documentation-level reference interpreter (compile_correct, all statement trees); four correspondences (VM on real chunks in the toy world and in the full world World1 incl. the engine's snapshot corpus, compiler listings, reference vs engine)",
     "Theorems state the documented scoping order, the loop.* counters for every container and every iteration, and where assignments live, "
     "for all states of the Gallina port of the VM; compile_correct: for every library of statement trees (if/elif/else, for/else over arrays, "
     "strings, maps, break/continue, set/set_global, set blocks, filter sections, includes; any nesting), every context/global context, the "
     "compiled code (port of compile_node with back-patched targets) run on the VM port yields exactly the reference interpreter's text or both "
     "fail (induction on statements with a code-at-pc invariant, on items for loops, on the library for includes; exact fuel accounting). "
     "Run-level: include_state_is_fresh, nothing_survives_render for every chunk. Partial: capture exactness is proved for compiled bodies, "
-    "not arbitrary instruction segments. The three ports are validated every run: real finalized chunks on the VM port, real pre-optimisation "
+    "not arbitrary instruction segments. compile_correct is instantiated at the toy world World0 and at the full world World1 (every delegated "
+    "function = the per-property model: Number, Order, CollFilters, Builtins, Component, Format); World1 is proved to agree with World0 on the World0 "
+    "subset, and the models it plugs together are proved equal where they port the same Rust function (Key::eq/cmp, Map::get, get_attr, numeric "
+    "==/partial_cmp between C13 and C15, escape_html, the decimal printers). The three ports are validated every run: real finalized chunks on the VM port, real pre-optimisation "
     "listings vs the compiler port, tera.render vs the reference interpreter.",
     "§6 C03",
 )
